@@ -420,6 +420,42 @@ func runC09(c *core.Ctx) {
 			c.Sample(map[string]any{"corrupted": target, "planted": planted, "file": clip(files[target], 700), "layout": layout})
 		}
 	})
+	// notes whose text is a character another format gives a meaning to (the block-scalar indicators of YAML, an
+	// anchor, a tag): a note is one line, and the malformed lines below it are reported like any others
+	{
+		srv := pool.Servers[0]
+		for ni, note := range []string{"  # mood: |", "  # mood: >", "  # |", "  # >-", "  # text: |+", "  # ref: &a", "  # t: !!str"} {
+			text := "2021/01/01:\n  bread: 2\n" + note + "\n  candy/snickers/bar:1\n  milk: 1\n    deeper: 1,5\n\n  after a blank line\n2021/01/02:\n  ok: 1\n"
+			planted := [][2]string{{"4", "  candy/snickers/bar:1"}, {"6", "    deeper: 1,5"}, {"8", "  after a blank line"}}
+			srv.Write(map[string]string{"noted.yaml": text})
+			res := srv.App1([]string{"--no-color", "lint", "noted.yaml"}, nil)
+			c.Eval(1)
+			c.Count("files_with_a_note_other_formats_give_a_meaning_to", 1)
+			c.Nontrivial("block-note", fmt.Sprint(ni))
+			doc := caseDoc{Files: map[string]string{"noted.yaml": text}, Args: []string{"--no-color", "lint", "noted.yaml"}, Expected: planted, Observed: resDoc(res)}
+			var msgs []string
+			for _, ln := range obs.Lines(res.Out) {
+				if ln != "No errors found" {
+					msgs = append(msgs, ln)
+				}
+			}
+			if len(msgs) != len(planted) {
+				c.Violation("lint|message-count", fmt.Sprintf("%d messages for %d malformed lines below the note %q", len(msgs), len(planted), strings.TrimSpace(note)), doc)
+			} else {
+				for j, p := range planted {
+					if !mentionsLine(msgs[j], p[0], p[1]) {
+						c.Violation("lint|message-content", fmt.Sprintf("message %d %q does not name line %s and quote %q", j, msgs[j], p[0], p[1]), doc)
+						break
+					}
+				}
+			}
+			pr := srv.App1([]string{"--no-color", "-l", "noted.yaml", "print"}, nil)
+			c.Eval(1)
+			if pr.Exit == 0 || !mentionsLine(pr.ErrText(), planted[0][0], planted[0][1]) {
+				c.Violation("print|malformed-line-accepted", fmt.Sprintf("exit %d, message %q: line %s %q below the note %q is malformed", pr.Exit, clip(pr.ErrText(), 200), planted[0][0], planted[0][1], strings.TrimSpace(note)), caseDoc{Files: map[string]string{"noted.yaml": text}, Args: []string{"--no-color", "-l", "noted.yaml", "print"}, Observed: resDoc(pr)})
+			}
+		}
+	}
 	jobs, deaths := pool.Stats()
 	c.Count("l2_jobs", jobs)
 	c.Count("l2_process_deaths", deaths)
